@@ -1,7 +1,9 @@
 package main
 
 import (
+	"bytes"
 	"context"
+	"encoding/base64"
 	"fmt"
 	"os"
 	"sort"
@@ -48,6 +50,37 @@ var c16variants = []string{
 	"states-without-root",     // states and their tree, the manifest has no states tree root
 	"op-replaced-at-leaf",     // a leaf of the operations tree carries the key of a foreign operation (node hash kept, root kept), the operation is replaced
 	"state-replaced-at-leaf",  // the same for a state
+	"op-body-rewritten",       // the body of the last operation is rewritten; fact hash, operation hash and sign are kept (trees and manifest stay consistent)
+	"state-body-rewritten",    // the value of the last state is rewritten under its old hash
+}
+
+// the variants that are also written as genesis blocks (height 0: no previous block, operations go through
+// base.IsValidGenesisOperation in the importer)
+var c16genesisList = []string{"ok", "ok-empty", "op-body-rewritten", "state-body-rewritten", "ops-foreign-tree", "states-foreign-tree", "vp-other-block", "op-extra", "state-extra"}
+
+var c16genesisVariants = func() map[string]bool {
+	m := map[string]bool{}
+	for _, v := range c16genesisList {
+		m[v] = true
+	}
+	return m
+}()
+
+// c16rewrite re-decodes v from its JSON with the bytes `old` replaced by `repl`: an object whose body changed and whose
+// stored hashes did not
+func c16rewrite[T any](env *c16env, v T, old, repl []byte) (T, error) {
+	var out T
+	b, err := env.enc.Marshal(v)
+	if err != nil {
+		return out, err
+	}
+	if !bytes.Contains(b, old) {
+		return out, fmt.Errorf("body to rewrite not found in %s", string(b))
+	}
+	if err := encoder.Decode(env.enc, bytes.Replace(b, old, repl, 1), &out); err != nil {
+		return out, err
+	}
+	return out, nil
 }
 
 type c16env struct {
@@ -86,6 +119,14 @@ func runC16(c *Ctx) error {
 		nops, nsts := 1+c.Intn(4), 1+c.Intn(4)
 		height := base.Height(int64(33 + c.Intn(50)))
 		round := base.Round(uint64(c.Intn(3)))
+		genesis := c16genesisVariants[variant] && c.Chance(1, 4)
+		if g := i - len(c16variants); g >= 0 && g < len(c16genesisList) { // every genesis variant once, right after every variant once
+			variant, genesis = c16genesisList[g], true
+		}
+		if genesis {
+			height = base.GenesisHeight
+			round = 0 // the genesis point is (0, 0)
+		}
 		src, dst := fmt.Sprintf("%s/s%d", scratch, i), fmt.Sprintf("%s/d%d", scratch, i)
 		if err := os.MkdirAll(src, 0o700); err != nil {
 			return err
@@ -131,6 +172,7 @@ func runC16(c *Ctx) error {
 		iv, vv := verdict(ierr), verdict(verr)
 		c.Eval(1)
 		c.Count("variant", variant)
+		c.Count("height", map[bool]string{true: "genesis", false: "above-genesis"}[genesis])
 		c.Count("importer", iv)
 		c.Count("validator", vv)
 		consistent := variant == "ok" || variant == "ok-empty"
@@ -154,7 +196,11 @@ func runC16(c *Ctx) error {
 		case !consistent && ierr != nil && verr == nil:
 			c.Violation("C16:validator-accepts-inconsistent-block:"+variant, fmt.Sprintf("%s: IsValidBlockFromLocalFS accepts", variant), input)
 		}
-		c.Case(fmt.Sprintf("blk %s %d %d", variant, nops, nsts), fmt.Sprintf("importer=%s validator=%s", iv, vv))
+		if genesis {
+			c.Case(fmt.Sprintf("blk %s %d %d genesis", variant, nops, nsts), fmt.Sprintf("importer=%s validator=%s", iv, vv))
+		} else {
+			c.Case(fmt.Sprintf("blk %s %d %d", variant, nops, nsts), fmt.Sprintf("importer=%s validator=%s", iv, vv))
+		}
 		c.Nontrivial(fmt.Sprintf("%s/%d/%d/%d/%d", variant, nops, nsts, height, round))
 		if i < len(c16variants) || i%50 == 0 {
 			c.Sample(input)
@@ -165,6 +211,8 @@ func runC16(c *Ctx) error {
 
 func c16group(variant string) string {
 	switch {
+	case strings.HasSuffix(variant, "-body-rewritten"): // the item's own validity, not its relation to tree and manifest
+		return strings.TrimSuffix(variant, "-rewritten")
 	case strings.HasPrefix(variant, "state"):
 		return "states"
 	case strings.HasPrefix(variant, "op"), variant == "no-ops-root-set", variant == "empty-ops-tree-root-set":
@@ -246,14 +294,28 @@ func c16write(c *Ctx, env *c16env, root, variant string, height base.Height, rou
 	if err != nil {
 		return nil, err
 	}
-	prev, prevSuf := valuehash.RandomSHA256(), valuehash.RandomSHA256()
+	var prev, prevSuf util.Hash
+	if height != base.GenesisHeight {
+		prev, prevSuf = valuehash.RandomSHA256(), valuehash.RandomSHA256()
+	}
+	opBody := map[string][]byte{}
 	newOp := func() base.Operation {
-		fact := isaac.NewDummyOperationFact(util.UUID().Bytes(), valuehash.RandomSHA256())
+		body := valuehash.RandomSHA256()
+		fact := isaac.NewDummyOperationFact(util.UUID().Bytes(), body)
+		opBody[fact.Hash().String()] = body.Bytes()
 		op, _ := isaac.NewDummyOperation(fact, local.Privatekey(), hNetworkID)
 		return op
 	}
+	stBody := map[string]string{}
 	newState := func(h base.Height) base.State {
-		return base.NewBaseState(h, "k-"+util.UUID().String(), base.NewDummyStateValue(util.UUID().String()), valuehash.RandomSHA256(), []util.Hash{valuehash.RandomSHA256()})
+		v := util.UUID().String()
+		var previous util.Hash
+		if height != base.GenesisHeight {
+			previous = valuehash.RandomSHA256()
+		}
+		st := base.NewBaseState(h, "k-"+util.UUID().String(), base.NewDummyStateValue(v), previous, []util.Hash{valuehash.RandomSHA256()})
+		stBody[st.Hash().String()] = v
+		return st
 	}
 	// operations
 	var ops, treeOps []base.Operation
@@ -328,6 +390,18 @@ func c16write(c *Ctx, env *c16env, root, variant string, height base.Height, rou
 			replaced = foreign
 		}
 		opsTree = &tr
+	}
+	if variant == "op-body-rewritten" {
+		last := written[len(written)-1]
+		old := []byte(base64.StdEncoding.EncodeToString(opBody[last.Fact().Hash().String()]))
+		nop, err := c16rewrite(env, last, old, []byte(base64.StdEncoding.EncodeToString(valuehash.RandomSHA256().Bytes())))
+		if err != nil {
+			return nil, err
+		}
+		if !nop.Hash().Equal(last.Hash()) || !nop.Fact().Hash().Equal(last.Fact().Hash()) || nop.IsValid(hNetworkID) == nil {
+			return nil, fmt.Errorf("op-body-rewritten: the rewritten operation keeps its hashes and is invalid by itself: not so")
+		}
+		replaced = nop
 	}
 	if err := writeOps(); err != nil {
 		return nil, err
@@ -423,6 +497,17 @@ func c16write(c *Ctx, env *c16env, root, variant string, height base.Height, rou
 			writtenSts = append(append([]base.State{}, writtenSts[:len(writtenSts)-1]...), foreign)
 		}
 		stsTree = &ststree
+	}
+	if variant == "state-body-rewritten" {
+		last := writtenSts[len(writtenSts)-1]
+		nst, err := c16rewrite(env, last, []byte(stBody[last.Hash().String()]), []byte(util.UUID().String()))
+		if err != nil {
+			return nil, err
+		}
+		if !nst.Hash().Equal(last.Hash()) || nst.IsValid(nil) == nil {
+			return nil, fmt.Errorf("state-body-rewritten: the rewritten state keeps its hash and is invalid by itself: not so")
+		}
+		writtenSts = append(append([]base.State{}, writtenSts[:len(writtenSts)-1]...), nst)
 	}
 	for i := range writtenSts {
 		if err := fs.SetState(ctx, uint64(len(writtenSts)), uint64(i), writtenSts[i]); err != nil {
